@@ -23,7 +23,17 @@ Hypothesis enc_len : forall a sz, encode_attr a = EncOk sz -> FHeap.len (enc a) 
 Notation spec_obj := (spec_obj enc).
 Notation spec_of := (spec_of enc).
 
-Definition obj_ok (oa : N * attr) : Prop := fst oa < 65536 /\ FHeap.len (enc (snd oa)) = msg_size (snd oa).
+(* a stored object: offset within the 2-byte offset field, and a message EncodeAttributeMessage accepted *)
+Definition obj_ok (oa : N * attr) : Prop := fst oa < 65536 /\ exists sz, encode_attr (snd oa) = EncOk sz.
+
+Lemma obj_ok_len oa : obj_ok oa -> FHeap.len (enc (snd oa)) = msg_size (snd oa).
+Proof. intros [_ [sz He]]. rewrite (msg_size_enc _ _ He). apply enc_len. exact He. Qed.
+
+Lemma assoc_get_in : forall A (l : list (N * A)) k x, assoc_get k l = Some x -> In (k, x) l.
+Proof.
+  induction l as [|[k' y] l IH]; intros k x; cbn [assoc_get]; [discriminate|].
+  destruct (N.eqb_spec k' k); [intro E; inversion E; subst; left; reflexivity | intro E; right; auto].
+Qed.
 
 Definition HSim (h : FHeap.heap) (fs : FHeap.fstate) (hp : heap) : Prop :=
   FHeap.R BLOCK h fs (spec_of hp) /\ Forall obj_ok (hobjs hp).
@@ -139,7 +149,7 @@ Proof.
   - unfold AttrCompose.spec_of. cbn [hobjs hfree]. rewrite map_app. cbn [map]. unfold AttrCompose.spec_obj at 2.
     cbn [fst snd]. rewrite (msg_size_enc _ _ He). exact HR'.
   - cbn [hobjs]. apply Forall_app. split; [assumption|]. constructor; [|constructor].
-    split; cbn [fst snd]; [lia | rewrite (msg_size_enc _ _ He); exact Hl].
+    split; cbn [fst snd]; [lia | exists sz; exact He].
 Qed.
 
 (* ErrEmptyObject / ErrObjectTooLarge: refused, heap unchanged *)
@@ -195,6 +205,12 @@ Qed.
 Definition id_live (hp : heap) (id : hid) (a : attr) : Prop :=
   heap_get hp id = Some a /\ snd id = msg_size a /\ fst id < 65536.
 
+Lemma id_live_enc h fs hp id a : HSim h fs hp -> id_live hp id a -> exists sz, encode_attr a = EncOk sz.
+Proof.
+  intros [_ F] (G & _). unfold heap_get in G. apply assoc_get_in in G. rewrite Forall_forall in F.
+  destruct (F _ G) as [_ H]. exact H.
+Qed.
+
 Lemma id_live_lookup h fs hp id a : HSim h fs hp -> id_live hp id a ->
   FHeap.lookup (id8 id) (FHeap.sp_live (spec_of hp)) = Some (enc a).
 Proof.
@@ -213,11 +229,7 @@ Proof.
   intros HS L He Hsz Ho. pose proof (id_live_lookup _ _ _ _ _ HS L) as Hl. destruct HS as [HR F].
   destruct L as (G & Hs & Hlt). unfold heap_get in G.
   assert (Hold : FHeap.len (enc old) = msg_size old).
-  { apply assoc_get_in_keys in G as HI. clear HI.
-    assert (In (fst id, old) (hobjs hp)).
-    { clear -G. induction (hobjs hp) as [|[k x] l IH]; cbn [assoc_get] in G; [discriminate|].
-      destruct (N.eqb_spec k (fst id)); [inversion G; subst; left; reflexivity | right; auto]. }
-    rewrite Forall_forall in F. apply (F _ H). }
+  { apply assoc_get_in in G. rewrite Forall_forall in F. apply (obj_ok_len _ (F _ G)). }
   destruct (FHeap.overwrite_R BLOCK h fs (spec_of hp) (id8 id) (enc a) (enc old) block_ok HR Hl) as (h' & Hov & HR').
   { rewrite (enc_len _ _ He), Hold. congruence. }
   exists h'. split; [exact Hov|].
@@ -228,7 +240,7 @@ Proof.
     rewrite (replace_spec (hobjs hp) l (fst id) old a) in HR'; try assumption.
     rewrite (msg_size_enc _ _ He). congruence.
   - cbn [hobjs]. eapply obj_ok_set; [exact F | | exact E]. split; cbn [fst snd]; [assumption|].
-    rewrite (msg_size_enc _ _ He). apply enc_len. assumption.
+    exists sz. assumption.
 Qed.
 
 Lemma delete_sim h fs hp id old hp' : HSim h fs hp -> id_live hp id old ->
